@@ -27,3 +27,27 @@ Proof. exact registry_stable. Qed.
 
 Print Assumptions C16_register.
 Print Assumptions C16_stable.
+
+(** ** The capacity arithmetic of the code itself (ecs/util.go, regenerated translation
+    [Gen/Mask256.v]): the number of layout slots per table ([capacityNonZero] of the number
+    of registered types, in chunks of 16) and the growth of tables ([capacity],
+    [capacityU32]) are the model's [capacity_nz] / [capacity] - the least multiple of the
+    increment that holds the size - so every registered ID has a layout slot. *)
+From Arche Require Import Pure.MachInt Gen.Mask256 Pure.CapGen.
+Local Open Scope nat_scope.
+Theorem C16_code_capacity : forall size inc,
+  0 < inc -> (N.of_nat (Base.capacity size inc) < 2 ^ 63)%N ->
+  Mask256.capacity (N.of_nat size) (N.of_nat inc) = N.of_nat (Base.capacity size inc) /\
+  Mask256.capacityNonZero (N.of_nat size) (N.of_nat inc) = N.of_nat (capacity_nz size inc).
+Proof. exact capacity_code_tie. Qed.
+Theorem C16_code_capacityU32 : forall size inc,
+  0 < inc -> (N.of_nat (Base.capacity size inc) < 2 ^ 32)%N ->
+  Mask256.capacityU32 (N.of_nat size) (N.of_nat inc) = N.of_nat (Base.capacity size inc).
+Proof. exact capacityU32_gen. Qed.
+Theorem C16_capacity_is_least_multiple : forall size inc,
+  0 < inc ->
+  size <= Base.capacity size inc < size + inc /\ Base.capacity size inc mod inc = 0 /\
+  forall c, size <= c -> c mod inc = 0 -> Base.capacity size inc <= c.
+Proof. exact capacity_is_least_multiple. Qed.
+Print Assumptions C16_code_capacity.
+Print Assumptions C16_capacity_is_least_multiple.
